@@ -6,11 +6,17 @@ P = {
                   'legacy EIP-712 routes, for ANY hash / recovery / verification functions: over all histories of submissions (valid, replayed, '
                   'out of order, any verdict of the unmodelled checks) every (account, nonce) is accepted at most once and an accepted transaction '
                   'is rejected ever after; replay-protected transactions of another chain id and unprotected ones (AllowUnprotectedTxs = false) are '
-                  'refused; a correctly signed transaction at the right nonce is accepted; (3) *_partial: under explicit premises ECDSA '
+                  'refused; a correctly signed transaction at the right nonce is accepted; (2b) the same for Cosmos transactions carrying SEVERAL '
+                  'MsgEthereumTx (step_eth_tx = the two ante loops: authenticate every message, then per message nonce = CURRENT sequence, +1; all or '
+                  'nothing): over all histories each (account, nonce) executes at most once, also within one transaction; a transaction containing a '
+                  'duplicated, replayed, stale or out-of-order message is rejected as a whole without effect; acceptance is characterised exactly '
+                  '(nonce of message k = sequence at the start + earlier messages of the same sender) and in-order batches, senders interleaved, are '
+                  'accepted; the one-message transaction is the old machine; (3) *_partial: under explicit premises ECDSA '
                   'unforgeability and Keccak collision resistance, a transaction executes on behalf of an account only if that account\'s key holder '
                   'signed exactly its content, chain id and current sequence -- hence single-field mutations and foreign-chain signatures do not. '
                   'The machine is compared on every run with the real ante handler (all routes, every single-field mutation, chain-id variants, '
-                  'replays) and with real DeliverTx block histories',
+                  'replays), with real DeliverTx block histories, and with multi-message Ethereum transactions (built with /repo\'s testutil/tx.PrepareEthTx) '
+                  'through the real ante handler and real DeliverTx, executions counted on the recipients\' balances',
     'level_note': 'partial: ECDSA (secp256k1 sign/recover/verify) and Keccak-256 are NOT modelled -- they enter the theorems as arbitrary functions '
                   'and the negative direction carries unforgeability / collision resistance as named premises; the correspondence run uses the real '
                   'ones and feeds the model what they answered (recovered sender; which sign doc a signature was made over). Cosmos / EIP-712 routes '
@@ -19,20 +25,25 @@ P = {
                   'boolean per submission. No axioms',
     'technique': 'Coq proof (state-machine invariant over all histories; RLP injectivity) + differential correspondence against the real ante handler and DeliverTx',
     'drivers': [
-        {'name': 'sigs', 'n': {'quick': 240, 'thorough': 5000}, 'batch': 1000},
+        {'name': 'sigs', 'n': {'quick': 240, 'thorough': 5000}, 'batch': 1000, 'shrink_field': 'txs'},
     ],
     'coq_header': 'From Coq Require Import Ascii String.\nFrom Coq Require Import ZArith NArith List.\n'
                   'From HV Require Import TxCodec.EthTxModel Ante.SigModel.\nImport ListNotations.\nLocal Open Scope string_scope.',
     'lists': {'cases': {'type': 'list hist', 'check': 'mismatches_groups', 'shard': 40}},
     'search': {'rounds': 3, 'n': 600},
-    'rule': 'four cases in five: one signed transaction of one route (eth legacy / access-list / dynamic-fee, cosmos direct / amino, EIP-712 via '
+    'rule': 'four cases in six: one signed transaction of one route (eth legacy / access-list / dynamic-fee, cosmos direct / amino, EIP-712 via '
             'Web3 extension / via the ethsecp256k1 key) on a real app through the real ante handler: every single-field mutation on its own branch of '
             'the state (eth: nonce, prices, gas, to, value, data, access list, chain id field or V, V/R/S tweaks, s-malleation, type change, ten '
             'envelope fields; cosmos: message, memo, fee, gas, timeout, signer-info sequence and key, signature bytes, extension fields), the same '
             'content signed for haqq_54211-3, for another account number or sequence, unprotected, then original / replay / next nonces / replays; '
             'for ~45% of the eth mutants the stranger account the altered signature recovers to is funded so that the mutant IS accepted -- for '
-            'that stranger. One case in five: a block history through real DeliverTx (2-3 accounts, 3-5 nonces each, all routes mixed, in-order / '
-            'duplicate / ahead submissions, a block boundary). Non-trivial = at least one acceptance and more than three submissions; distinct = distinct seeds',
+            'that stranger. One case in six: a block history through real DeliverTx (2-3 accounts, 3-5 nonces each, all routes mixed, in-order / '
+            'duplicate / ahead submissions, a block boundary). One case in six (kind multi, explicit script in the input): a fresh chain, 2-3 senders, '
+            '5-9 Cosmos transactions of 1-4 MsgEthereumTx (legacy / access-list / dynamic-fee mixed) through the real ante handler and real DeliverTx: '
+            'in-order batch of one sender 16%, two senders interleaved 12%, single 6%, the same signed tx twice 14%, same-nonce replacement pair 9%, '
+            'gap / future nonce 8%, reversed 5%, a message executed earlier alone or beside a fresh one 12%, duplicate behind another sender 10%, '
+            'recipient altered after signing (stranger unfunded / funded) 8%; a block boundary in half of them; every signed message pays a private '
+            'recipient, so executions are counted on balances. Non-trivial = at least one acceptance and more than three submissions; distinct = distinct seeds',
     'trusted_base': [
         'Coq 8.16.1 kernel incl. vm_compute (no native_compute)',
         'axioms: none (Print Assumptions: closed under the global context for every theorem of Props/C03.v)',
@@ -41,7 +52,9 @@ P = {
         'cryptographic oracle (who a signature recovers to, which sign doc it was made over)',
         'modelled, not verified: x/auth SigVerificationDecorator, IncrementSequenceDecorator, SetPubKeyDecorator, sign-mode handlers, '
         'ethereum/eip712 typed-data construction, protobuf decoding, baseapp (ante writes kept only on success); fees / funds / gas / validity '
-        'checks are an arbitrary boolean',
+        'checks are an arbitrary boolean (one per Cosmos transaction)',
+        'multi-message cases: /repo testutil/tx.PrepareEthTx builds the Cosmos envelope; one execution of a signed message = its value arriving '
+        'once at its private recipient address',
     ],
     'assumptions': [
         'ECDSA unforgeability and Keccak collision resistance (premises of the *_partial theorems only)',
